@@ -165,6 +165,7 @@ func newCompressedJSONLinesWriter(path string, codec CompressionCodec, zstdLevel
 	if err != nil {
 		return nil, fmt.Errorf("open fragment temp file: %w", err)
 	}
+	verifCrashPoint("fragment.temp.opened")
 
 	hasher := sha256.New()
 	compressedCounter := &countingWriter{
@@ -206,6 +207,7 @@ func (s *compressedJSONLinesWriter) Write(value any) error {
 	}
 
 	s.count++
+	verifCrashPoint("fragment.record.written")
 
 	return nil
 }
@@ -226,18 +228,21 @@ func (s *compressedJSONLinesWriter) Close() (FileManifest, error) {
 
 		return FileManifest{}, fmt.Errorf("finish compressed fragment: %w", err)
 	}
+	verifCrashPoint("fragment.compressor.closed")
 
 	if err := s.file.Close(); err != nil {
 		_ = os.Remove(s.tempPath)
 
 		return FileManifest{}, fmt.Errorf("close fragment file: %w", err)
 	}
+	verifCrashPoint("fragment.file.closed")
 
 	if err := os.Rename(s.tempPath, s.path); err != nil {
 		_ = os.Remove(s.tempPath)
 
 		return FileManifest{}, fmt.Errorf("rename fragment: %w", err)
 	}
+	verifCrashPoint("fragment.renamed")
 
 	return FileManifest{
 		Count:             s.count,
